@@ -432,7 +432,13 @@ func fan(c *core.Ctx, fn, dm *core.Fn) {
 			hasMsg = hasMsg || isMsg(a)
 			hasW = hasW || !isMsg(a) && isWriter(info.TypeOf(a))
 		}
-		if sel, isSel := ast.Unparen(call.Fun).(*ast.SelectorExpr); isSel && recvType(f) != nil {
+		fun := ast.Unparen(call.Fun)
+		if id, isID := fun.(*ast.Ident); isID { // a method value bound once to a local: `write := writer.WriteString`
+			if d := pat.DefOf(info, id); d != nil {
+				fun = ast.Unparen(d)
+			}
+		}
+		if sel, isSel := fun.(*ast.SelectorExpr); isSel && recvType(f) != nil {
 			hasW = hasW || strings.HasPrefix(f.Name(), "Write") && isWriter(info.TypeOf(sel.X))
 		}
 		return hasMsg && hasW
